@@ -19,6 +19,7 @@ pub mod c12_tex;
 pub mod c13_pnm;
 pub mod c14_obj;
 pub mod c15_solids;
+pub mod c16_color;
 pub mod mutate;
 
 pub type MonFn = fn(&Cfg, &mut Report);
@@ -37,6 +38,7 @@ pub fn lookup(prop: &str) -> Option<MonFn> {
         "C13" => c13_pnm::run,
         "C14" => c14_obj::run,
         "C15" => c15_solids::run,
+        "C16" => c16_color::run,
         _ => return None,
     })
 }
